@@ -538,6 +538,247 @@ def _gen_sqlite(notes: list[str]) -> list[str]:
     return L
 
 
+# --------------------------------------------------------------------------
+# memory_workflow_store.MemoryWorkflowStore: constructor, query, update, delete, eviction loop
+
+
+def _self_attr(node: ast.AST, attr: str) -> bool:
+    return isinstance(node, ast.Attribute) and isinstance(node.value, ast.Name) and node.value.id == "self" and node.attr == attr
+
+
+def _call_self(node: ast.AST, attr: str, meth: str | None) -> ast.Call | None:
+    """`self.<attr>.<meth>(...)` (or `self.<attr>(...)` when meth is None) as an expression statement or a bare call"""
+    if isinstance(node, ast.Expr):
+        node = node.value
+    if not isinstance(node, ast.Call):
+        return None
+    f = node.func
+    if meth is None:
+        return node if _self_attr(f, attr) else None
+    if isinstance(f, ast.Attribute) and f.attr == meth and _self_attr(f.value, attr):
+        return node
+    return None
+
+
+def _is_none(node: ast.AST | None) -> bool:
+    return isinstance(node, ast.Constant) and node.value is None
+
+
+def _short(st: ast.AST) -> str:
+    return "?" + _ws(ast.unparse(st))[:48]
+
+
+def _terminal_call(node: ast.AST, base: str) -> bool:
+    return isinstance(node, ast.Call) and isinstance(node.func, ast.Name) and node.func.id == "is_terminal_status" \
+        and len(node.args) == 1 and _is_attr(node.args[0], base, "status")
+
+
+def _queue_key(node: ast.AST) -> ast.AST | None:
+    """`self._terminal_queue[K]` -> K"""
+    if isinstance(node, ast.Subscript) and _self_attr(node.value, "_terminal_queue"):
+        return node.slice
+    return None
+
+
+def _gen_memory_store(notes: list[str]) -> list[str]:
+    tree = _parse(MEMORY)
+    cls = _find_def(tree, "MemoryWorkflowStore")
+    default: int | None | str = "<missing>"
+    neg_raises = False
+    query_shape = False
+    upd: list[str] = []
+    dele: list[str] = []
+    evi: list[str] = []
+    tables: list[str] = []
+
+    init = _find_def(cls, "__init__")
+    if init is not None:
+        args = init.args.args
+        defaults = [None] * (len(args) - len(init.args.defaults)) + list(init.args.defaults)
+        for a, d in zip(args, defaults):
+            if a.arg == "max_completed" and isinstance(d, ast.Constant) and (d.value is None or (isinstance(d.value, int) and not isinstance(d.value, bool))):
+                default = d.value
+        for n in ast.walk(init):
+            if isinstance(n, ast.If) and any(isinstance(x, ast.Raise) for x in n.body):
+                t = _ws(ast.unparse(n.test))
+                if t in ("max_completed is not None and max_completed < 0", "max_completed is not None and 0 > max_completed"):
+                    exc = next(x for x in n.body if isinstance(x, ast.Raise)).exc
+                    if isinstance(exc, ast.Call) and isinstance(exc.func, ast.Name) and exc.func.id == "ValueError":
+                        neg_raises = True
+    if default == "<missing>":
+        notes.append("translate: gen/handlerstore: MemoryWorkflowStore.__init__: default of max_completed not found")
+
+    qfn = _find_def(cls, "query")
+    if qfn is not None and len(qfn.args.args) == 2:
+        qp = qfn.args.args[1].arg
+        b = _body(qfn)
+        if len(b) == 1 and isinstance(b[0], ast.Return) and isinstance(b[0].value, ast.ListComp) and len(b[0].value.generators) == 1:
+            lc = b[0].value
+            g = lc.generators[0]
+            if isinstance(g.target, ast.Name) and isinstance(lc.elt, ast.Name) and lc.elt.id == g.target.id \
+                    and _call_self(g.iter, "handlers", "values") is not None and len(g.ifs) == 1 \
+                    and _ws(ast.unparse(g.ifs[0])) == f"_matches_query({g.target.id}, {qp})":
+                query_shape = True
+    if not query_shape:
+        notes.append("translate: gen/handlerstore: MemoryWorkflowStore.query is not the filtered listing of handlers.values()")
+
+    ufn = _find_def(cls, "update")
+    if ufn is not None and len(ufn.args.args) == 2:
+        hp = ufn.args.args[1].arg
+
+        def is_hid(n: ast.AST | None) -> bool:
+            return n is not None and _is_attr(n, hp, "handler_id")
+
+        def enqueue_assign(st: ast.stmt) -> bool:
+            return isinstance(st, ast.Assign) and len(st.targets) == 1 and is_hid(_queue_key(st.targets[0])) and _is_none(st.value)
+
+        def branch(stmts: list[ast.stmt]) -> list[str]:
+            out: list[str] = []
+            for st in stmts:
+                c = _call_self(st, "_terminal_queue", "pop")
+                if c is not None and len(c.args) == 2 and is_hid(c.args[0]) and _is_none(c.args[1]):
+                    out.append("dequeue")
+                elif _call_self(st, "_evict_oldest_completed", None) is not None:
+                    out.append("evict")
+                elif enqueue_assign(st):
+                    out.append("enqueue-always")
+                elif isinstance(st, ast.If) and not st.orelse and len(st.body) == 1 and enqueue_assign(st.body[0]) \
+                        and isinstance(st.test, ast.Compare) and len(st.test.ops) == 1 and isinstance(st.test.ops[0], ast.NotIn) \
+                        and is_hid(st.test.left) and _self_attr(st.test.comparators[0], "_terminal_queue"):
+                    out.append("enqueue-if-absent")
+                else:
+                    c = _call_self(st, "_terminal_queue", "move_to_end")
+                    out.append("move-to-end" if c is not None else _short(st))
+            return out
+
+        for st in _body(ufn):
+            if isinstance(st, ast.Assign) and len(st.targets) == 1 and isinstance(st.targets[0], ast.Subscript) \
+                    and _self_attr(st.targets[0].value, "handlers") and is_hid(st.targets[0].slice) \
+                    and isinstance(st.value, ast.Name) and st.value.id == hp:
+                upd.append("store")
+            elif isinstance(st, ast.If) and _terminal_call(st.test, hp):
+                upd += ["if-terminal"] + branch(st.body) + ["else"] + branch(st.orelse)
+            else:
+                upd.append(_short(st))
+    if any(t.startswith("?") for t in upd) or not upd:
+        notes.append(f"translate: gen/handlerstore: MemoryWorkflowStore.update: shape not recognised {upd}")
+
+    dfn = _find_def(cls, "delete")
+    if dfn is not None and len(dfn.args.args) == 2:
+        qp = dfn.args.args[1].arg
+        coll: str | None = None
+        for st in _body(dfn):
+            if isinstance(st, ast.Assign) and len(st.targets) == 1 and isinstance(st.targets[0], ast.Name) and isinstance(st.value, ast.ListComp) \
+                    and len(st.value.generators) == 1:
+                g = st.value.generators[0]
+                it = g.iter
+                if isinstance(it, ast.Call) and isinstance(it.func, ast.Name) and it.func.id == "list" and len(it.args) == 1:
+                    it = it.args[0]
+                ok = _call_self(it, "handlers", "items") is not None and isinstance(g.target, ast.Tuple) and len(g.target.elts) == 2 \
+                    and all(isinstance(e, ast.Name) for e in g.target.elts) and isinstance(st.value.elt, ast.Name) \
+                    and st.value.elt.id == g.target.elts[0].id and len(g.ifs) == 1 \
+                    and _ws(ast.unparse(g.ifs[0])) == f"_matches_query({g.target.elts[1].id}, {qp})"  # type: ignore[attr-defined]
+                if ok:
+                    coll = st.targets[0].id
+                    dele.append("collect-matching")
+                else:
+                    dele.append(_short(st))
+            elif isinstance(st, ast.For) and isinstance(st.target, ast.Name) and isinstance(st.iter, ast.Name) and st.iter.id == coll and not st.orelse:
+                v = st.target.id
+                for s2 in st.body:
+                    c = _call_self(s2, "_terminal_queue", "pop")
+                    if isinstance(s2, ast.Delete) and len(s2.targets) == 1 and isinstance(s2.targets[0], ast.Subscript) \
+                            and _self_attr(s2.targets[0].value, "handlers") and isinstance(s2.targets[0].slice, ast.Name) and s2.targets[0].slice.id == v:
+                        dele.append("del-handler")
+                    elif c is not None and len(c.args) == 2 and isinstance(c.args[0], ast.Name) and c.args[0].id == v and _is_none(c.args[1]):
+                        dele.append("dequeue")
+                    else:
+                        dele.append(_short(s2))
+            elif isinstance(st, ast.Return) and st.value is not None and _ws(ast.unparse(st.value)) == f"len({coll})":
+                dele.append("count")
+            else:
+                dele.append(_short(st))
+    if any(t.startswith("?") for t in dele) or not dele:
+        notes.append(f"translate: gen/handlerstore: MemoryWorkflowStore.delete: shape not recognised {dele}")
+
+    efn = _find_def(cls, "_evict_oldest_completed")
+    if efn is not None:
+        for st in _body(efn):
+            if isinstance(st, ast.If) and not st.orelse and len(st.body) == 1 and isinstance(st.body[0], ast.Return) and st.body[0].value is None \
+                    and isinstance(st.test, ast.Compare) and len(st.test.ops) == 1 and isinstance(st.test.ops[0], ast.Is) \
+                    and _self_attr(st.test.left, "max_completed") and _is_none(st.test.comparators[0]):
+                evi.append("unbounded-returns")
+            elif isinstance(st, ast.While) and not st.orelse and isinstance(st.test, ast.Compare) and len(st.test.ops) == 1 \
+                    and _ws(ast.unparse(st.test.left)) == "len(self._terminal_queue)" and _self_attr(st.test.comparators[0], "max_completed"):
+                evi.append("while-len" + {ast.Gt: ">", ast.GtE: ">=", ast.NotEq: "!="}.get(type(st.test.ops[0]), "?") + "max")
+                idv: str | None = None
+                hv: str | None = None
+                rv: str | None = None
+                for s2 in st.body:
+                    if isinstance(s2, ast.Assign) and len(s2.targets) == 1:
+                        tgt, val = s2.targets[0], s2.value
+                        c = _call_self(val, "_terminal_queue", "popitem")
+                        if c is not None and isinstance(tgt, ast.Tuple) and len(tgt.elts) == 2 and isinstance(tgt.elts[0], ast.Name) and not c.args \
+                                and len(c.keywords) == 1 and c.keywords[0].arg == "last" and isinstance(c.keywords[0].value, ast.Constant):
+                            idv = tgt.elts[0].id
+                            evi.append("pop-oldest" if c.keywords[0].value.value is False else "pop-newest")
+                            continue
+                        c = _call_self(val, "handlers", "get")
+                        if c is not None and isinstance(tgt, ast.Name) and len(c.args) == 1 and isinstance(c.args[0], ast.Name) and c.args[0].id == idv:
+                            hv = tgt.id
+                            continue
+                        if isinstance(tgt, ast.Name) and hv is not None and _is_attr(val, hv, "run_id"):
+                            rv = tgt.id
+                            continue
+                        evi.append(_short(s2))
+                        continue
+                    if isinstance(s2, ast.If) and not s2.orelse and len(s2.body) == 1 and isinstance(s2.body[0], ast.Continue) and hv is not None:
+                        t = s2.test
+                        if isinstance(t, ast.Compare) and len(t.ops) == 1 and isinstance(t.ops[0], ast.Is) and isinstance(t.left, ast.Name) \
+                                and t.left.id == hv and _is_none(t.comparators[0]):
+                            evi.append("skip-missing")
+                            continue
+                        if isinstance(t, ast.UnaryOp) and isinstance(t.op, ast.Not) and _terminal_call(t.operand, hv):
+                            evi.append("skip-nonterminal")
+                            continue
+                    c = _call_self(s2, "handlers", "pop")
+                    if c is not None and c.args and isinstance(c.args[0], ast.Name) and c.args[0].id == idv:
+                        evi.append("remove-handler")
+                        continue
+                    if isinstance(s2, ast.If) and not s2.orelse and rv is not None and _ws(ast.unparse(s2.test)) == f"{rv} is not None":
+                        okp = True
+                        for s3 in s2.body:
+                            c3 = s3.value if isinstance(s3, ast.Expr) else None
+                            if isinstance(c3, ast.Call) and isinstance(c3.func, ast.Attribute) and c3.func.attr == "pop" \
+                                    and isinstance(c3.func.value, ast.Attribute) and isinstance(c3.func.value.value, ast.Name) \
+                                    and c3.func.value.value.id == "self" and c3.args and isinstance(c3.args[0], ast.Name) and c3.args[0].id == rv:
+                                tables.append(c3.func.value.attr)
+                            else:
+                                okp = False
+                        evi.append("drop-run-data" if okp else _short(s2))
+                        continue
+                    evi.append(_short(s2))
+            else:
+                evi.append(_short(st))
+    if any(t.startswith("?") for t in evi) or not evi:
+        notes.append(f"translate: gen/handlerstore: MemoryWorkflowStore._evict_oldest_completed: shape not recognised {evi}")
+
+    dflt = "some (-99)" if default == "<missing>" else ("none" if default is None else f"some {default}" if default >= 0 else f"some ({default})")  # type: ignore[operator]
+    return ["", "/-! memory_workflow_store.MemoryWorkflowStore -/",
+            "/-- default of `max_completed` in `__init__` (`none` = `None`, no bound) -/",
+            f"def memMaxCompletedDefault : Option Int := {dflt}",
+            "/-- `__init__` raises `ValueError` for a negative `max_completed` -/",
+            f"def memNegativeMaxRaises : Bool := {lean_bool(neg_raises)}",
+            "/-- `query` is `[h for h in self.handlers.values() if _matches_query(h, query)]` -/",
+            f"def memQueryIsFilteredListing : Bool := {lean_bool(query_shape)}",
+            "/-- statement shapes of `update`, `delete`, `_evict_oldest_completed` (parameter and local names abstracted) -/",
+            f"def memUpdateShape : List String := {lean_strs(upd)}",
+            f"def memDeleteShape : List String := {lean_strs(dele)}",
+            f"def memEvictShape : List String := {lean_strs(evi)}",
+            "/-- per-run tables an eviction also clears (sorted) -/",
+            f"def memEvictRunTables : List String := {lean_strs(sorted(tables))}"]
+
+
 def generate(notes: list[str]) -> list[str]:
     L = ["namespace Gen.HandlerStore", "",
          f"def fieldNames : List String := {lean_strs(FIELDS)}",
@@ -545,6 +786,7 @@ def generate(notes: list[str]) -> list[str]:
     a, _names = _gen_abstract(notes)
     L += a
     L += _gen_memory(notes)
+    L += _gen_memory_store(notes)
     L += _gen_sqlite(notes)
     L += ["", "end Gen.HandlerStore"]
     return L
